@@ -61,6 +61,7 @@ def sig_of(msg):
     m = re.sub(r"op=\d+\s*", "", m)
     m = re.sub(r"#?-?\d+", "N", m)
     m = re.sub(r"(N[ ,]*)+", "N ", m)
+    m = re.sub(r"(N ?\(N ?\) ?)+", "N(N)* ", m)
     return m.strip()[:200]
 
 
